@@ -67,9 +67,9 @@ def check_presence_sets(ctx, fn, where):
     is *collected* in this function (initialised empty / from all_keys()) must
     reach the lookup un-narrowed: bound once, never filtered or shrunk."""
     lookups = []
-    for s in walk_own(fn):
-        if isinstance(s, ast.Assign) and isinstance(s.value, ast.Call) and call_attr(s.value) == "get_parent_map" and len(s.value.args) == 1 and isinstance(s.value.args[0], ast.Name):
-            lookups.append(s.value.args[0].id)
+    for c_ in calls_in(fn):
+        if call_attr(c_) == "get_parent_map" and len(c_.args) == 1 and isinstance(c_.args[0], ast.Name):
+            lookups.append(c_.args[0].id)
     checked = 0
     for name in sorted(set(lookups)):
         binds = [s for s in walk_own(fn) if isinstance(s, (ast.Assign, ast.AugAssign)) and any(isinstance(t, ast.Name) and t.id == name for t in (s.targets if isinstance(s, ast.Assign) else [s.target]))]
